@@ -304,3 +304,50 @@ def round_to_integral(rm, x):
     if rm == "RNE":
         return fl if fl % 2 == 0 else fl + 1
     return fl + 1 if x > 0 else fl   # RNA: away from zero
+
+
+# ----------------------------------------------------------------------------------------------------------------------
+# line protocol (lean/DriverFS/FP.lean)
+def fmt_case(op, fmt, rm, a, prefix="fp"):
+    flat = []
+    for v in a:
+        if isinstance(v, tuple):
+            flat += [str(v[0]), str(v[1])]
+        else:
+            flat.append(str(v))
+    if op == "fpToFP_bv":
+        flat = flat[:1]
+    return "%s %s %s %s %s" % (prefix, op, fmt, rm or "-", " ".join(flat))
+
+
+def fmt_res(r):
+    if r[0] == "f":
+        return "f:%s:%s" % (r[1], r[2])
+    if r[0] == "bv":
+        return "bv:%d:%d" % (r[1], r[2])
+    if r[0] == "b":
+        return "b:%d" % (1 if r[1] else 0)
+    if r[0] == "err":
+        return "!" + r[1]
+    return "?" + str(r)
+
+
+OPS_ARITH = ("fpAdd", "fpSub", "fpMul", "fpDiv")
+OPS_UNARY = ("fpAbs", "fpNeg", "fpIsNaN", "fpIsInf", "fpToIEEEBV")
+OPS_CMP = ("fpEQ", "fpNEQ", "fpLT", "fpLEQ", "fpGT", "fpGEQ")
+
+
+def int_pool(rng, size, n_random):
+    ints = {0, 1, 2, 3, (1 << size) - 1, (1 << (size - 1)), (1 << (size - 1)) - 1, (1 << (size - 1)) + 1}
+    for k in (24, 25, 53, 54, 60):
+        if k < size:
+            ints |= {(1 << k) - 1, (1 << k) + 1, (1 << k) + 3, (3 << (k - 1)) + 1}
+            if k > 24:
+                ints |= {(1 << k) + (1 << (k - 24)) + 1, (1 << k) + (1 << (k - 24)), (1 << k) + (1 << (k - 24)) - 1,
+                         (1 << k) + (3 << (k - 25)), (1 << k) + (3 << (k - 25)) + 1}
+            if k > 53:
+                ints |= {(1 << k) + (1 << (k - 53)) + 1, (1 << k) + (1 << (k - 53)), (1 << k) + (3 << (k - 54))}
+    ints |= {rng.getrandbits(size) for _ in range(n_random)}
+    ints |= {rng.getrandbits(rng.randrange(1, size + 1)) for _ in range(n_random)}
+    ints |= {((1 << size) - v) % (1 << size) for v in list(ints)}
+    return sorted(v % (1 << size) for v in ints)
